@@ -4,6 +4,8 @@
      new / gnew            construct a bare SimpleStringInternalCache / a GlobalSimpleStringCache
      alloc k n             buffer request (bare: cache.alloc; global: through the adaptor SimpleStringCacheAllocator)
      dealloc k m           release of the k-th allocation with a size of the same class
+     xdealloc k m          release of the k-th allocation with a size of another class (cached or not): an unknown release,
+                           the buffer stays in use (bare: one call; global: like pdel, the printing of the warning makes calls)
      snew k n / sdel k n   (global) a SimpleString with an n-byte buffer is created / destroyed
      foreign / clearcache / clearall   (bare) release of a foreign pointer, clearCache, clearAll
      del / gdel            destroy the bare cache (after it was cleared) / the global cache (buffers may be in use)
@@ -69,6 +71,11 @@ GStep == /\ Len(h) < D /\ pend = <<>> /\ UNCHANGED done
                                       /\ na' = na + 1 /\ Named /\ sown' = sown \cup {na + 1} /\ PreSame
             \/ \E mem \in DOMAIN req, m \in Sizes : /\ hid[mem] \notin sown \cup hidden /\ Dealloc(mem, m) /\ Call("dealloc", hid[mem], m)
                                                     /\ hid' = [x \in DOMAIN req' |-> hid[x]] /\ UNCHANGED <<na, sown>> /\ PreSame
+            \/ \E mem \in DOMAIN req, m \in Sizes :
+                  /\ hid[mem] \notin sown \cup hidden /\ ElsewhereSize(mem, m) /\ Call("xdealloc", hid[mem], m)
+                  /\ UNCHANGED <<hid, na, sown, np, pre, fix, tmp, hidden, nh>>
+                  /\ IF life = "bare" THEN DeallocElsewhere(mem, m) /\ UNCHANGED pend
+                                      ELSE pend' = <<MT("u")>> /\ UNCHANGED vars
             \/ \E mem \in DOMAIN req : /\ hid[mem] \in sown /\ Dealloc(mem, req[mem]) /\ Call("sdel", hid[mem], req[mem])
                                        /\ hid' = [x \in DOMAIN req' |-> hid[x]] /\ UNCHANGED <<na, sown>> /\ PreSame
             \/ \E m \in ForeignSizes : life = "bare" /\ DeallocUnknown /\ Call("foreign", 1, m) /\ UNCHANGED <<hid, na, sown>> /\ PreSame
